@@ -99,6 +99,9 @@ type FTy struct {
 	Txt     *TxtRules
 	Flatten bool
 	List    *LPay
+	SFormat *string  // StringField.format
+	AnyOD   bool     // AnyField.only_defined
+	AnyT    []string // AnyField.types
 }
 
 type PKind int
@@ -252,7 +255,7 @@ func (t FTy) Coq() string {
 		if t.Str != nil {
 			r = fmt.Sprintf("(Some (SR %s %s %s))", optS(t.Str.Pat), optN(t.Str.Min), optN(t.Str.Max))
 		}
-		return fmt.Sprintf("(TStr %s %s)", r, t.List.Coq())
+		return fmt.Sprintf("(TStr %s %s %s)", optS(t.SFormat), r, t.List.Coq())
 	case TBytes:
 		r := "None"
 		if t.Len != nil {
@@ -293,7 +296,7 @@ func (t FTy) Coq() string {
 	case TTimestamp:
 		return fmt.Sprintf("(TTimestamp %s)", t.List.Coq())
 	case TAny:
-		return fmt.Sprintf("(TAny %s)", t.List.Coq())
+		return fmt.Sprintf("(TAny %s %s %s)", vh.BoolTerm(t.AnyOD), strList(t.AnyT), t.List.Coq())
 	case TObject:
 		return fmt.Sprintf("(TObject %s)", vh.BoolTerm(t.Flatten))
 	case TOneof:
@@ -391,6 +394,9 @@ func (t FTy) j5s(enum EnumEnv, prefix string) (tag string, lines []string) {
 		}
 	case TStr:
 		tag = "string"
+		if t.SFormat != nil {
+			add("format = %s", q(*t.SFormat))
+		}
 		if r := t.Str; r != nil {
 			if r.Pat != nil {
 				add("rules.pattern = %s", q(*r.Pat))
@@ -480,6 +486,12 @@ func (t FTy) j5s(enum EnumEnv, prefix string) (tag string, lines []string) {
 		tag = "timestamp"
 	case TAny:
 		tag = "any"
+		if t.AnyOD {
+			add("onlyDefined = true")
+		}
+		if len(t.AnyT) > 0 {
+			add("types = %s", qList(t.AnyT))
+		}
 	case TObject:
 		tag = "object:Bar"
 		if t.Flatten {
